@@ -147,6 +147,21 @@ func c12CheckOne(c *fw.Ctx, s1, s2 seg, a, b, cc, d geom.Coord, tr c12truth, loc
 
 func c12Robust(c *fw.Ctx, s1, s2 seg, a, b, cc, d geom.Coord, tr c12truth, locate bool, when string) bool {
 	var res lineintersection.Result
+	if c.R.Chance(1, 4) {
+		// other questions about the same coordinates first: is an end of one
+		// segment on the other segment
+		func() {
+			defer func() { _ = recover() }()
+			ends := []geom.Coord{a, b, cc, d}
+			k := c.R.Intn(4)
+			if k < 2 {
+				_ = lineintersector.PointIntersectsLine(lineintersector.RobustLineIntersector{}, ends[k], cc, d)
+			} else {
+				_ = lineintersector.PointIntersectsLine(lineintersector.RobustLineIntersector{}, ends[k], a, b)
+			}
+		}()
+		c.Count("point_on_segment_asked_about_the_same_coordinates_first")
+	}
 	if c.Guard("panic", func() {
 		res = lineintersector.LineIntersectsLine(lineintersector.RobustLineIntersector{}, a, b, cc, d)
 	}) {
